@@ -614,7 +614,7 @@ pub fn run(args: &Args) {
     }
     // --- FastStr
     // + the allowances of the extension families (c20_x.rs), which do not go through push_coq
-    cx.budget = if args.thorough { 30000 + 6 * 2161 } else { 4000 + 2161 };
+    cx.budget = if args.thorough { 30000 + 6 * 2161 + 60 } else { 4000 + 2161 + 60 };
     // deep oracle: every length 0..=130, differently built contents (high-bit bytes, tiny alphabet, boundary bytes)
     for rep in 0..(if args.thorough { 8 } else { 1 }) {
         for n in 0..=130usize {
@@ -749,6 +749,22 @@ pub fn run(args: &Args) {
     more::sortable_long_case(&mut cx, (1 << 20) - 1);
     more::sortable_long_case(&mut cx, 1 << 20);
     more::sortable_long_case(&mut cx, (1 << 20) + 5);
+    // LineProcessor trimming with every Unicode White_Space character (and neighbours that are not white space) at both ends:
+    // ties the model's utf8_trim to str::trim
+    {
+        let ws = ["\u{9}", "\u{b}", "\u{c}", "\u{20}", "\u{85}", "\u{a0}", "\u{1680}", "\u{2000}", "\u{2005}", "\u{200a}", "\u{2028}", "\u{2029}", "\u{202f}", "\u{205f}", "\u{3000}"];
+        let not_ws = ["\u{200b}", "\u{180e}", "\u{84}", "\u{a1}", "\u{2060}", "\u{feff}", "\u{1f}", "\u{2027}", "\u{3001}", "\u{167f}"];
+        x::reserve_lines_cfg(60);
+        for (k, w) in ws.iter().enumerate() {
+            let n = not_ws[k % not_ws.len()];
+            let text = format!("{w}a{w}{w}\n{w}\n{n}{w}b{w}{n}\r\n{w}{n}{w}\n{w}c", w = w, n = n);
+            for cfg in [2u64, 3, 7] { more::lines_cfg_case(&mut cx, &text, cfg, (k % 3) as usize, ","); }
+        }
+        for (k, n) in not_ws.iter().enumerate() {
+            let text = format!("{n}\n {n} \n{n}x{n}\n", n = n);
+            more::lines_cfg_case(&mut cx, &text, 3 + 4 * (k as u64 % 2), 1, "");
+        }
+    }
     // radix_sort on strings with long common runs (recursion depth of the MSD sort), each in a child process
     for (n, len, shape) in [(40usize, 6000usize, 0u64), (33, 63, 0), (33, 64, 0), (33, 65, 0), (64, 100_000, 0), (4500, 0, 1)] {
         if !args.thorough && n * len.max(n / 2) > 3_000_000 && args.seed % 2 == 1 && shape == 0 { continue; }
